@@ -84,6 +84,56 @@ RUNAWAY = [
 ]
 
 
+# ------------------------------------------------------------------ long sequential histories of jumps out of match case bodies
+def _half_up(n):
+    return (n + 1) // 2
+
+
+def _alt(n):
+    return ["[" + ",".join("01"[i % 2] for i in range(n)) + "]"]
+
+
+# (name, program with @N, inputs(N), expected output between "start" and "done")
+SEQUENTIAL = [
+    ("return from a block case",
+     "function kind(v) { match (v) { 0 => { return \"zero\" },\n n => { return \"other\" } } }\n"
+     "BEGIN { print \"start\"\n for (i = 0; i < @N; i++) { if (kind(i % 3) == \"zero\") { z++ } }\n print z\n print \"done\" }",
+     lambda n: [], lambda n: "%d\n" % ((n + 2) // 3)),
+    ("continue in a block case",
+     "BEGIN { print \"start\"\n for (i = 0; i < @N; i++) { match (i % 2) { 1 => { continue } }\n n++ }\n print n\n print \"done\" }",
+     lambda n: [], lambda n: "%d\n" % _half_up(n)),
+    ("continue in a block case, while loop",
+     "BEGIN { print \"start\"\n while (k < @N) { k++\n match (k % 2) { 0 => { continue } }\n m++ }\n print m, k\n print \"done\" }",
+     lambda n: [], lambda n: "%d %d\n" % (_half_up(n), n)),
+    ("break in a block case",
+     "BEGIN { print \"start\"\n for (i = 0; i < @N; i++) { for (j in [1, 2]) { match (j) { 1 => { break } }\n c++ }\n t++ }\n print c + 0, t\n print \"done\" }",
+     lambda n: [], lambda n: "0 %d\n" % n),
+    ("next in a block case",
+     "BEGIN { print \"start\" }\n{ match ($ % 2) { 1 => { next } }\n n++ }\nEND { print n\n print \"done\" }",
+     _alt, lambda n: "%d\n" % _half_up(n)),
+    ("next in a block case inside a function",
+     "function f(v) { match (v) { 1 => { next } }\n return v }\nBEGIN { print \"start\" }\n{ f($ % 2)\n n++ }\nEND { print n\n print \"done\" }",
+     _alt, lambda n: "%d\n" % _half_up(n)),
+    ("next out of an expression body",
+     "function skip() { next }\nBEGIN { print \"start\" }\n{ y = match ($ % 2) { 1 => skip(),\n v => v }\n n++ }\nEND { print n\n print \"done\" }",
+     _alt, lambda n: "%d\n" % _half_up(n)),
+    ("return from a loop inside a block case",
+     "function g(v) { match (v) { k => { for (e in [1, 2, 3]) { if (e == 2) { return e + k } } } } }\n"
+     "BEGIN { print \"start\"\n for (i = 0; i < @N; i++) { s = s + g(1) }\n print s\n print \"done\" }",
+     lambda n: [], lambda n: "%d\n" % (3 * n)),
+    ("continue in a case inside a case",
+     "BEGIN { print \"start\"\n for (i = 0; i < @N; i++) { match (i % 2) { 1 => { match (i % 3) { 0 => { continue } } } }\n n++ }\n print n\n print \"done\" }",
+     lambda n: [], lambda n: "%d\n" % (n - len(range(3, n, 6)))),
+    ("continue in a block case, for-in over a long array",
+     "BEGIN { print \"start\"\n a[@N - 1] = 0\n for (e, i in a) { match (i % 2) { 1 => { continue } }\n n++ }\n print n\n print \"done\" }",
+     lambda n: [], lambda n: "%d\n" % _half_up(n)),
+    ("return without a value from a block case, result of the case used",
+     "function h(v) { r = match (v) { 0 => { return },\n w => w + 1 }\n return r }\n"
+     "BEGIN { print \"start\"\n for (i = 0; i < @N; i++) { if (h(i % 2) == null) { z++ } }\n print z\n print \"done\" }",
+     lambda n: [], lambda n: "%d\n" % _half_up(n)),
+]
+
+
 # ------------------------------------------------------------------ array indexes
 def go_int(x):
     """Go's int(float64) on amd64"""
@@ -192,6 +242,27 @@ class C20(Check):
             want = ("runtime", "start\n")
             rec.append((prog, inputs, True, want, {"limit": "call depth", "shape": "runaway"}, True))
 
+        # ---- "everything up to the limit works normally": many SEQUENTIAL calls / iterations / records, never nested more than a few
+        # frames deep, whose match case bodies end in every kind of jump (return, continue, break, next, a signal out of an
+        # expression body).  A frame left behind by any of them would add up to the limit; the run must succeed with depth 0.
+        LL = depth_limit()
+        if not (1000 <= LL < FEW_THOUSAND):
+            LL = 4096
+        for si, (name, tmpl, inp_of, out_of) in enumerate(SEQUENTIAL):
+            ns = [LL + 100 + rng.randint(0, 800), 2 * LL + 17, 3 * LL + rng.randint(1, 500)]
+            if quick:
+                ns = [rng.choice(ns)]
+            for N in ns:
+                prog = tmpl.replace("@N", str(N))
+                inputs = inp_of(N)
+                want = ("ok", "start\n" + out_of(N) + "done\n")
+                meta = {"limit": "call depth", "shape": "sequential: " + name, "iterations": N, "nested_frames": "<= 4", "L": LL, "depth0": True}
+                if len(str(inputs)) >= 500:
+                    meta["input"] = "%d-element array" % N
+                # the shorter input-free ones also go to the model; the rest is judged on the implementation alone
+                dest = small if (not inputs and N < 2 * LL) else big
+                dest.append((prog, inputs, False, want, meta, True))
+
         # ---- array indexes
         def store_prog(init, xt):
             return "BEGIN { print \"start\"\n a = %s\n a[%s] = 1\n print a.length()\n print \"done\" }" % (init, xt)
@@ -231,6 +302,36 @@ class C20(Check):
             big.append((prog, ["[[1, 2]]"], True, ("runtime", "start\n"), {"limit": "array fill", "index": x, "op": "store into input"}, True))
             prog = "BEGIN { print \"start\"\n u[%d] = 1\n print \"done\" }" % x
             big.append((prog, [], True, ("runtime", "start\n"), {"limit": "array fill", "index": x, "op": "store into unset variable"}, True))
+        # the fill limit holds for arrays that are already LARGE: the array is grown in one allowed step (or by pushes), then a
+        # store beyond the limit must be refused whatever the current length, and a store up to the limit must work
+        HALF = FILL // 2
+        for n0 in (HALF - 1, HALF, HALF + 1, 600000, 786432, 1000000, FILL, FILL + 1):
+            targets = sorted({FILL - 1, FILL, FILL + 1, FILL + 2, 2 * n0 - 1, 2 * n0, 2 * n0 + 1, 1500000, 2000000, 4000000})
+            if quick:
+                targets = [x for x in targets if x in (FILL, FILL + 1, 2 * n0, 1500000, 2000000)]
+                targets = rng.sample(targets, min(3, len(targets))) + [x for x in (FILL + 1,) if n0 in (HALF + 1, FILL + 1)]
+            for x in sorted(set(targets)):
+                if x < n0:
+                    continue
+                for stmt in (("a[%d] = 2",) if quick and x not in (FILL + 1, 2000000) else ("a[%d] = 2", "a[%d] += 1", "a[%d]++", "a[%d].k = 1")):
+                    st = stmt % x
+                    prog = "BEGIN { print \"start\"\n a[%d] = 1\n print a.length()\n %s\n print a.length()\n print \"done\" }" % (n0 - 1, st)
+                    if x > FILL:
+                        want = ("runtime", "start\n%d\n" % n0)
+                    else:
+                        want = ("ok", "start\n%d\n%d\ndone\n" % (n0, max(n0, x + 1)))
+                    big.append((prog, [], False, want, {"limit": "array fill", "index": x, "array": "%d elements" % n0, "op": st + " on a large array"}, True))
+        # repeated doubling never gets past the limit; growth by pushes, then an indexed store; an input array
+        big.append(("BEGIN { print \"start\"\n a[%d] = 1\n print a.length()\n a[2000000] = 2\n print a.length()\n a[4000000] = 3\n print a.length() }" % FILL, [], False,
+                    ("runtime", "start\n%d\n" % (FILL + 1)), {"limit": "array fill", "op": "fill to the limit, then store beyond it twice"}, True))
+        big.append(("BEGIN { print \"start\"\n a = []\n for (i = 0; i < 600000; i++) { a.push(i) }\n print a.length()\n a[1500000] = 1\n print a.length() }", [], False,
+                    ("runtime", "start\n600000\n"), {"limit": "array fill", "op": "600000 pushes, then a store at 1500000"}, True))
+        big.append(("BEGIN { print \"start\"\n a[599999] = 1\n b = a\n b[1500000] = 1\n print \"never\" }", [], False,
+                    ("runtime", "start\n"), {"limit": "array fill", "op": "store beyond the limit through a second reference to a large array"}, True))
+        big.append(("{ print \"start\"\n print $.length()\n $[1500000] = 1\n print \"never\" }", ["[[" + ",".join(["0"] * 600000) + "]]"], False,
+                    ("runtime", "start\n600000\n"), {"limit": "array fill", "op": "600000-element input array, then a store at 1500000"}, True))
+        big.append(("BEGIN { print \"start\"\n a[%d] = 1\n x = a[2000000]\n y = a[4000000]\n print x, y, a.length()\n print \"done\" }" % FILL, [], False,
+                    ("ok", "start\nnull null %d\ndone\n" % (FILL + 1)), {"limit": "array fill", "op": "reads far beyond a full array"}, True))
         # the documented "works": a 100000-element array built three ways, a million-element array
         big.append(("BEGIN { print \"start\"\n for (i = 0; i < 100000; i++) { a[i] = i }\n print a.length(), a[99999]\n print \"done\" }", [], False,
                     ("ok", "start\n100000 99999\ndone\n"), {"limit": "array fill", "op": "100000 stores in a loop"}, True))
@@ -312,6 +413,8 @@ class C20(Check):
             return None
         want = (case.meta["want"][0], case.meta["want"][1].encode())
         got = (impl.outcome, impl.stdout)
+        if got == want and case.meta.get("depth0") and impl.outcome == "ok" and impl.depth not in ("0", "?"):
+            return "call depth limit: %s frames are still on the stack after a run that never nested more than a few calls" % impl.depth
         if got != want:
             def short(b):
                 return b if len(b) < 200 else b[:80] + b"...(%d bytes)..." % len(b) + b[-40:]
